@@ -37,7 +37,7 @@ REQS = [
 N_SMALL = 8
 
 
-N_VARIANTS = 12     # variant 10 = the source of variant 5 delivered by re-filling the BASE request's array object in place;
+N_VARIANTS = 13     # variant 12 = the profiles of variant 9 delivered by re-filling the BASE request's z / profile arrays in place; variant 10 = the source of variant 5 delivered by re-filling the BASE request's array object in place;
                     # variant 11 = measurement point at the origin (no re-centring product: the spectral arrays reach the FFT layer
                     # in their STORAGE precision)
 
@@ -124,6 +124,12 @@ for op in hist:
             kw = request(op[1], op[2] if len(op) > 2 else None, 0)
             saved = kw["srf_flx"].copy()
             kw["srf_flx"][...] = C12.build_request(op[1], op[2] if len(op) > 2 else None, 5)["srf_flx"]
+        elif variant == 12:
+            # the same for the profile arrays (a time loop that refills its meteorological buffers)
+            kw = request(op[1], op[2] if len(op) > 2 else None, 0)
+            saved12 = [p_.copy() for p_ in kw["profiles"]]
+            for p_, n_ in zip(kw["profiles"], C12.build_request(op[1], op[2] if len(op) > 2 else None, 9)["profiles"]):
+                p_[...] = n_
         else:
             kw = request(op[1], op[2] if len(op) > 2 else None, variant)
         try:
@@ -137,6 +143,9 @@ for op in hist:
             rec["sha"] = "error"
         if saved is not None:
             kw["srf_flx"][...] = saved
+        if variant == 12:
+            for p_, n_ in zip(kw["profiles"], saved12):
+                p_[...] = n_
     elif op[0] == "P":
         # two solves of the same shape and precision IN FLIGHT AT ONCE (two Python threads): a solve must be re-entrant
         import threading
@@ -253,7 +262,7 @@ def gen_history(rng, length):
 def op_key(op):
     """(request shape, precision, variant) of a solve op"""
     v = op[3] if len(op) > 3 else 0
-    return (op[1], (op[2] if len(op) > 2 and op[2] else REQS[op[1]]["prec"]), 5 if v == 10 else v)
+    return (op[1], (op[2] if len(op) > 2 and op[2] else REQS[op[1]]["prec"]), 5 if v == 10 else 9 if v == 12 else v)
 
 
 def fresh_reference(keys=(), cache={}):
@@ -364,6 +373,8 @@ def run(rng, tier, deep):
             h += [["S", i, None, v], ["S", i, None, 0]]
         hists.append(h)
     hists.append([["S", 6], ["S", 0], ["T", 2], ["S", 6], ["S", 7], ["Z"], ["S", 6], ["S", 7], ["S", 6, "single"], ["S", 6]])
+    for i in (1, 0) if tier == "quick" else (1, 0, 3, 4):
+        hists.append([["S", i, None, 0], ["S", i, None, 12], ["S", i, None, 0], ["S", i, None, 9], ["S", i, None, 12]])
     # storage precision reaching the FFT layer (dispersion mode, measurement point at the origin), then the other precision on the
     # same grid: nothing the FFT layer keeps may depend on the first caller's element type
     for i in (0, 4) if tier == "quick" else (0, 2, 4, 6):
